@@ -8,6 +8,8 @@ import (
 	"os"
 	"os/exec"
 	"runtime/debug"
+	"strings"
+	"sync"
 	"syscall"
 	"time"
 )
@@ -21,14 +23,15 @@ import (
 // has a 4 GiB address-space limit. The child answers per input:
 //
 //	'k'  survived          'p' a Go panic was recovered (the parent re-runs and classifies it)
+//	other bytes: property-specific notes of the probe function (e.g. 's' = too slow to repeat)
 //	<child died>           the input kills the process (reported by the parent as an oracle failure)
 //
 // Used by C01 (wire helpers on arbitrary bytes) and C03 (Serve / HTTP handler on arbitrary bytes).
 
-var probeFuncs = map[string]func(data []byte){}
+var probeFuncs = map[string]func(data []byte) byte{}
 
 // RegisterProbe is called from init() of the property files. f runs the code under test on data.
-func RegisterProbe(name string, f func(data []byte)) { probeFuncs[name] = f }
+func RegisterProbe(name string, f func(data []byte) byte) { probeFuncs[name] = f }
 
 const probeEnv = "VERIF_PROBE"
 
@@ -57,7 +60,7 @@ func probeChildMain(name string) {
 				}
 			}()
 			if f != nil {
-				f(data)
+				ack = f(data)
 			}
 		}()
 		if _, err := out.Write([]byte{ack}); err != nil {
@@ -67,9 +70,35 @@ func probeChildMain(name string) {
 }
 
 type probeChild struct {
-	cmd *exec.Cmd
-	in  io.WriteCloser
-	out *bufio.Reader
+	cmd    *exec.Cmd
+	in     io.WriteCloser
+	out    *bufio.Reader
+	stderr *probeTail
+}
+
+// probeTail keeps the first bytes the child wrote to stderr (the runtime's "fatal error: ..." line).
+type probeTail struct {
+	mu  sync.Mutex
+	buf []byte
+}
+
+func (t *probeTail) Write(p []byte) (int, error) {
+	t.mu.Lock()
+	defer t.mu.Unlock()
+	if len(t.buf) < 200 {
+		t.buf = append(t.buf, p[:min(len(p), 200-len(t.buf))]...)
+	}
+	return len(p), nil
+}
+
+func (t *probeTail) firstLine() string {
+	t.mu.Lock()
+	defer t.mu.Unlock()
+	s := string(t.buf)
+	if i := strings.IndexByte(s, '\n'); i >= 0 {
+		s = s[:i]
+	}
+	return s
 }
 
 var probeChildren = map[string]*probeChild{}
@@ -85,11 +114,12 @@ func probeStart(name string) (*probeChild, error) {
 	if err != nil {
 		return nil, err
 	}
-	cmd.Stderr = io.Discard
+	errBuf := &probeTail{}
+	cmd.Stderr = errBuf
 	if err := cmd.Start(); err != nil {
 		return nil, err
 	}
-	return &probeChild{cmd: cmd, in: in, out: bufio.NewReader(outp)}, nil
+	return &probeChild{cmd: cmd, in: in, out: bufio.NewReader(outp), stderr: errBuf}, nil
 }
 
 // ProbeSurvives replays data in the screening child. survived=false: the child process died on
@@ -131,7 +161,7 @@ func ProbeSurvives(name string, data []byte) (survived bool, note string) {
 		if state != nil {
 			st = state.String()
 		}
-		return false, fmt.Sprintf("probe child died (%s %v)", st, a.err)
+		return false, fmt.Sprintf("child process died: %s; %s", st, ch.stderr.firstLine())
 	}
 	return true, string(a.b)
 }
@@ -144,4 +174,84 @@ func probeEnter() {
 			probeChildMain(name)
 		}
 	}
+}
+
+// ipcLargestDeclaredLength walks the IPC message framing of data the way arrow-go's message reader
+// does (continuation marker / legacy length prefix, flatbuffer metadata, body of
+// Message.bodyLength bytes) and returns the largest metadata or body length a frame DECLARES
+// beyond the bytes actually present. The reader allocates a declared length before it notices the
+// input is short, so a corrupted prefix of a few hundred megabytes only makes a run slow (it is
+// the same "unexpected EOF" path as a small one); such inputs are skipped by the generators'
+// callers. The walk stops at the first frame it cannot follow.
+func ipcLargestDeclaredLength(data []byte) int64 {
+	var worst int64
+	u32 := func(off int) (uint32, bool) {
+		if off < 0 || off+4 > len(data) {
+			return 0, false
+		}
+		return binary.LittleEndian.Uint32(data[off:]), true
+	}
+	pos := 0
+	for steps := 0; steps < 10000 && pos+4 <= len(data); steps++ {
+		w, _ := u32(pos)
+		pos += 4
+		if w == 0xFFFFFFFF {
+			var ok bool
+			if w, ok = u32(pos); !ok {
+				return worst
+			}
+			pos += 4
+		}
+		mlen := int64(int32(w))
+		if mlen == 0 {
+			continue // end-of-stream marker: the next stream may follow
+		}
+		if mlen < 0 {
+			return worst
+		}
+		if mlen > int64(len(data)-pos) {
+			if mlen > worst {
+				worst = mlen
+			}
+			return worst
+		}
+		meta := data[pos : pos+int(mlen)]
+		pos += int(mlen)
+		// flatbuffer Message: root table -> vtable slot 3 = bodyLength (int64)
+		body := int64(0)
+		func() {
+			if len(meta) < 8 {
+				return
+			}
+			root := int(binary.LittleEndian.Uint32(meta))
+			if root < 0 || root+4 > len(meta) {
+				return
+			}
+			vt := root - int(int32(binary.LittleEndian.Uint32(meta[root:])))
+			if vt < 0 || vt+4 > len(meta) {
+				return
+			}
+			vlen := int(binary.LittleEndian.Uint16(meta[vt:]))
+			slot := vt + 4 + 2*3
+			if slot+2 > vt+vlen || slot+2 > len(meta) {
+				return
+			}
+			fo := int(binary.LittleEndian.Uint16(meta[slot:]))
+			if fo == 0 || root+fo+8 > len(meta) {
+				return
+			}
+			body = int64(binary.LittleEndian.Uint64(meta[root+fo:]))
+		}()
+		if body < 0 {
+			return worst
+		}
+		if body > int64(len(data)-pos) {
+			if body > worst {
+				worst = body
+			}
+			return worst
+		}
+		pos += int(body)
+	}
+	return worst
 }
